@@ -214,6 +214,12 @@ func RaceCheck(id string) {}
 func Scheduled(budget, maxPoints int) {}
 func Yield()                          { runtime.Gosched() }
 
+// SchedFreeze(true): until SchedFreeze(false) the engine's scheduler makes
+// no enumerated decisions (at every scheduling point the lowest-numbered
+// eligible thread continues) and scheduling points are not counted towards
+// the bound. Used to run a set-up phase along one representative schedule.
+func SchedFreeze(on bool) {}
+
 func Unwind(n int)          {}
 func Flag(name string) bool { load(); return flags[name] }
 func Event(s string)        {}
